@@ -290,8 +290,7 @@ def vssCoeffs (sigma : Int) (t : Nat) (strong : List Int) : Option (List Int × 
   match strong with
   | [] => none
   | b0 :: rest =>
-    if rest.length < 2 * t then none
-    else
+    -- (a dealer that dies early has not made all its draws: missing coefficients read as 0)
       let as := (List.range t).map (fun k => getI rest (2 * k))
       let bs := (List.range t).map (fun k => getI rest (2 * k + 1))
       some (sigma :: as, b0 :: bs)
